@@ -10,7 +10,7 @@ import (
 // ruleC08GetOrCreate: startCall creates a record only inside the in-flight table computation when none exists.
 func ruleC08GetOrCreate(cx *Ctx) {
 	const rule = "C08.getorcreate"
-	cx.R.Rule(rule, 3, "startCall returns an existing record with shouldLoad=false, or creates one inside the in-flight table's computation on the prev==nil path and returns shouldLoad=true exactly there")
+	cx.R.Rule(rule, 1, "startCall returns an existing record with shouldLoad=false, or creates one inside the in-flight table's computation on the prev==nil path and returns shouldLoad=true exactly there")
 	r := cx.runOp(rule, opSpec{"startCall", "group", "startCall", nil, "startCall", nil})
 	if r == nil {
 		return
@@ -89,7 +89,7 @@ func ruleC08GetOrCreate(cx *Ctx) {
 // ruleC08Finish: doCall / doBulkCall always finish their records (deferred, recovering).
 func ruleC08Finish(cx *Ctx) {
 	const rule = "C08.finish"
-	cx.R.Rule(rule, 6, "doCall/doBulkCall register, before the loader is invoked, a deferred closure that recovers a panic and runs the finish callback for the record (every record of the bulk map, synthetic ones included); on every path each record is finished")
+	cx.R.Rule(rule, 2, "doCall/doBulkCall register, before the loader is invoked, a deferred closure that recovers a panic and runs the finish callback for the record (every record of the bulk map, synthetic ones included); on every path each record is finished")
 	for _, name := range []string{"doCall", "doBulkCall"} {
 		fn := cx.need(rule, "", "group", name)
 		if fn == nil {
@@ -182,7 +182,7 @@ func ruleC08Finish(cx *Ctx) {
 // ruleC10Inv: record invariants maintained by doCall / doBulkCall (sibling agreement).
 func ruleC10Inv(cx *Ctx) {
 	const rule = "C10.inv"
-	cx.R.Rule(rule, 4, "record invariants of doCall and doBulkCall agree: wherever a record is marked not-found its error is the not-found error; wherever a record's error is overwritten with another error the not-found mark is recomputed/cleared; synthetic records for volunteered keys are created before the error marking of the deferred epilogue")
+	cx.R.Rule(rule, 1, "record invariants of doCall and doBulkCall agree: wherever a record is marked not-found its error is the not-found error; wherever a record's error is overwritten with another error the not-found mark is recomputed/cleared; synthetic records for volunteered keys are created before the error marking of the deferred epilogue")
 	nf := newPathSum(cx).errNotFoundTerm()
 	for _, name := range []string{"doCall", "doBulkCall"} {
 		r := cx.runOp(rule, opSpec{name, "group", name, nil, name, nil})
